@@ -310,118 +310,7 @@ func runC11(c *core.Ctx) core.Meta {
 	// commands of its queue wrote there (c12.go, R12.15); EnqueueMemCopyD2D stages its tail this way
 	checkHostDataAtProcessingTime(c, pd, "R11.13")
 
-	// ---------------- R11.1 overlap predicate ----------------
-	st1 := c.Rule("R11.1", "memRangeOverlap(s1,e1,s2,e2) equals s1<e2 && s2<e1 on every weak ordering of its four arguments with s1<e1 and s2<e2 (abstract interpretation of the comparison skeleton over the order domain)", 1)
-	if fn := c.MustFunc("R11.1", driverPkg, "memRangeOverlap"); fn != nil {
-		c.MarkAnalysed(fn)
-		st1.Instances++
-		if len(fn.Params) != 4 {
-			c.Undecided("R11.1", fn, fn.Pos(), "arity", "overlap predicate no longer has four parameters")
-		} else {
-			for _, w := range weakOrderings(4) {
-				s1, e1, s2, e2 := w[0], w[1], w[2], w[3]
-				if !(s1 < e1 && s2 < e2) {
-					continue
-				}
-				rank := map[*ssa.Parameter]int{fn.Params[0]: s1, fn.Params[1]: e1, fn.Params[2]: s2, fn.Params[3]: e2}
-				got, ok := orderEval(fn, rank)
-				if !ok {
-					c.Undecided("R11.1", fn, fn.Pos(), "shape", "the predicate is no longer a pure comparison skeleton; cannot be decided over the order domain")
-					break
-				}
-				want := s1 < e2 && s2 < e1
-				st1.Ob(got == want)
-				if len(st1.Samples) < 4 {
-					st1.Sample("ordering s1=%d e1=%d s2=%d e2=%d: got %v want %v", s1, e1, s2, e2, got, want)
-				}
-				if got != want {
-					c.ReportAt("R11.1", fn, fn.Pos(), fmt.Sprintf("ordering:s1=%d,e1=%d,s2=%d,e2=%d", s1, e1, s2, e2),
-						fmt.Sprintf("for the ordering (ranks) s1=%d e1=%d s2=%d e2=%d the predicate yields %v, overlapping=%v: a dirty buffer overlapping the copy is missed (or a disjoint one flushed)", s1, e1, s2, e2, got, want))
-				}
-			}
-		}
-	}
-	// needFlushing uses the predicate with (buffer start, buffer end, copy start, copy end) and requires dirtiness
-	if fn := c.MustFunc("R11.1", driverPkg, "defaultMemoryCopyMiddleware.needFlushing"); fn != nil {
-		g := core.BuildGraph(fn, 3, func(cal *ssa.Function) bool { return cal.Pkg == fn.Pkg })
-		st1.Instances++
-		found := false
-		for _, n := range g.Nodes {
-			if callsFunc(n.Instr, pd.Pkg, "memRangeOverlap") {
-				found = true
-				var a []string
-				for _, x := range core.CallOf(n.Instr).Args {
-					a = append(a, prov.Of(x))
-				}
-				ok := len(a) == 4 && core.ProvMatch(regexp.MustCompile(`\.buffers\[[^\]]*\]\.vAddr$`), a[0]) &&
-					core.ProvEq(a[1], "("+a[0]+"+"+strings.TrimSuffix(a[0], ".vAddr")+".size)") &&
-					(strings.HasPrefix(a[3], "("+a[2]+"+") || strings.HasSuffix(a[3], "+"+a[2]+")")) && !strings.Contains(a[2], ".buffers[")
-				st1.Ob(ok)
-				st1.Sample("needFlushing: memRangeOverlap(%s)", strings.Join(a, ", "))
-				if !ok {
-					c.ReportAt("R11.1", fn, n.Instr.Pos(), "needFlushing:args", "the overlap test is not (buffer start, buffer start+size, copy start, copy start+size): "+strings.Join(a, ", "))
-				}
-				// a buffer can have been allocated through any context of the process
-				// (InitWithExistingPID): the buffers examined are those of the driver's
-				// contexts with the copy's process ID, not only the copying context's
-				st1.Instances++
-				okAll := len(a) == 4 && strings.Contains(a[0], ".contexts[")
-				st1.Ob(okAll)
-				if !okAll {
-					c.ReportAt("R11.1", fn, n.Instr.Pos(), "needFlushing:single-context", "needFlushing examines only the buffers of the copying context ("+short(a[0])+"): a buffer allocated through another context of the same process (InitWithExistingPID) and written by a kernel is copied without a flush")
-				}
-			}
-		}
-		if !found {
-			c.ReportAt("R11.1", fn, fn.Pos(), "needFlushing:no-overlap-test", "needFlushing no longer tests range overlap")
-		}
-		for _, r := range g.NodesWhere(func(n *core.Node) bool { _, ok := n.Instr.(*ssa.Return); return ok }) {
-			ret := r.Instr.(*ssa.Return)
-			if b, isC := core.ConstBool(ret.Results[0]); isC && !b {
-				// returning false must not be possible while an overlapping dirty buffer exists: the false return is after the loop only
-				continue
-			}
-		}
-		// an overlapping dirty buffer forces true: from the edge (overlap true & dirty true) only `return true` is reachable
-		st1.Instances++
-		okTrue := true
-		for _, n := range g.Nodes {
-			ifi, ok := n.Instr.(*ssa.If)
-			if !ok {
-				continue
-			}
-			// the dirty test itself, or a test of the result of a helper that
-			// contains it (needFlushing -> per-context helper)
-			isDirtyTest := false
-			if f := core.LoadedField(ifi.Cond); f != nil && f.Name() == "l2Dirty" {
-				isDirtyTest = true
-			}
-			if call, ok := ifi.Cond.(*ssa.Call); ok {
-				if cal := call.Call.StaticCallee(); cal != nil && cal.Pkg == fn.Pkg {
-					for _, b2 := range cal.Blocks {
-						for _, i2 := range b2.Instrs {
-							if fa, ok := i2.(*ssa.FieldAddr); ok && core.FieldOfAddr(fa) != nil && core.FieldOfAddr(fa).Name() == "l2Dirty" {
-								isDirtyTest = true
-							}
-						}
-					}
-				}
-			}
-			if isDirtyTest {
-				g.Walk([]core.State{{N: n.Succs[0]}}, core.WalkOpts{ForwardOnly: true}, func(s core.State) {
-					if r, ok := s.N.Instr.(*ssa.Return); ok && s.N.Frame == n.Frame {
-						if b, isC := returnedConstBool(r); !isC || !b {
-							okTrue = false
-						}
-					}
-				})
-			}
-		}
-		st1.Ob(okTrue)
-		if !okTrue {
-			c.ReportAt("R11.1", fn, fn.Pos(), "needFlushing:dirty-not-true", "an overlapping dirty buffer does not force needFlushing to return true")
-		}
-	}
+	checkFlushDecision(c, "R11.1", pd, prov)
 
 	// ---------------- R11.2 completion exactly once, after all pieces ----------------
 	st2 := c.Rule("R11.2", "a copy command is dequeued only where its list of outstanding requests was found empty, IsRunning=false is paired with Dequeue, and a device-to-host copy fills the host value before being dequeued; the DMA engine answers the CP only when the request collection is finished, and isFinished is subordinateCount==0", 5)
@@ -1553,5 +1442,123 @@ func hostSizeCut(prov *core.Prov, host string) EdgeCut {
 			return i == 0
 		}
 		return d < 0 && i == 1
+	}
+}
+
+// checkFlushDecision: the decision whether a copy must be preceded by a cache flush
+// (R11.1; R12.32 for the queue property: a copy observes the kernels before it in its
+// queue only through that flush).
+func checkFlushDecision(c *core.Ctx, rule string, pd *PkgInfo, prov *core.Prov) {
+	// ---------------- R11.1 overlap predicate ----------------
+	st1 := c.Rule(rule, "memRangeOverlap(s1,e1,s2,e2) equals s1<e2 && s2<e1 on every weak ordering of its four arguments with s1<e1 and s2<e2 (abstract interpretation of the comparison skeleton over the order domain)", 1)
+	if fn := c.MustFunc(rule, driverPkg, "memRangeOverlap"); fn != nil {
+		c.MarkAnalysed(fn)
+		st1.Instances++
+		if len(fn.Params) != 4 {
+			c.Undecided(rule, fn, fn.Pos(), "arity", "overlap predicate no longer has four parameters")
+		} else {
+			for _, w := range weakOrderings(4) {
+				s1, e1, s2, e2 := w[0], w[1], w[2], w[3]
+				if !(s1 < e1 && s2 < e2) {
+					continue
+				}
+				rank := map[*ssa.Parameter]int{fn.Params[0]: s1, fn.Params[1]: e1, fn.Params[2]: s2, fn.Params[3]: e2}
+				got, ok := orderEval(fn, rank)
+				if !ok {
+					c.Undecided(rule, fn, fn.Pos(), "shape", "the predicate is no longer a pure comparison skeleton; cannot be decided over the order domain")
+					break
+				}
+				want := s1 < e2 && s2 < e1
+				st1.Ob(got == want)
+				if len(st1.Samples) < 4 {
+					st1.Sample("ordering s1=%d e1=%d s2=%d e2=%d: got %v want %v", s1, e1, s2, e2, got, want)
+				}
+				if got != want {
+					c.ReportAt(rule, fn, fn.Pos(), fmt.Sprintf("ordering:s1=%d,e1=%d,s2=%d,e2=%d", s1, e1, s2, e2),
+						fmt.Sprintf("for the ordering (ranks) s1=%d e1=%d s2=%d e2=%d the predicate yields %v, overlapping=%v: a dirty buffer overlapping the copy is missed (or a disjoint one flushed)", s1, e1, s2, e2, got, want))
+				}
+			}
+		}
+	}
+	// needFlushing uses the predicate with (buffer start, buffer end, copy start, copy end) and requires dirtiness
+	if fn := c.MustFunc(rule, driverPkg, "defaultMemoryCopyMiddleware.needFlushing"); fn != nil {
+		g := core.BuildGraph(fn, 3, func(cal *ssa.Function) bool { return cal.Pkg == fn.Pkg })
+		st1.Instances++
+		found := false
+		for _, n := range g.Nodes {
+			if callsFunc(n.Instr, pd.Pkg, "memRangeOverlap") {
+				found = true
+				var a []string
+				for _, x := range core.CallOf(n.Instr).Args {
+					a = append(a, prov.Of(x))
+				}
+				ok := len(a) == 4 && core.ProvMatch(regexp.MustCompile(`\.buffers\[[^\]]*\]\.vAddr$`), a[0]) &&
+					core.ProvEq(a[1], "("+a[0]+"+"+strings.TrimSuffix(a[0], ".vAddr")+".size)") &&
+					(strings.HasPrefix(a[3], "("+a[2]+"+") || strings.HasSuffix(a[3], "+"+a[2]+")")) && !strings.Contains(a[2], ".buffers[")
+				st1.Ob(ok)
+				st1.Sample("needFlushing: memRangeOverlap(%s)", strings.Join(a, ", "))
+				if !ok {
+					c.ReportAt(rule, fn, n.Instr.Pos(), "needFlushing:args", "the overlap test is not (buffer start, buffer start+size, copy start, copy start+size): "+strings.Join(a, ", "))
+				}
+				// a buffer can have been allocated through any context of the process
+				// (InitWithExistingPID): the buffers examined are those of the driver's
+				// contexts with the copy's process ID, not only the copying context's
+				st1.Instances++
+				okAll := len(a) == 4 && strings.Contains(a[0], ".contexts[")
+				st1.Ob(okAll)
+				if !okAll {
+					c.ReportAt(rule, fn, n.Instr.Pos(), "needFlushing:single-context", "needFlushing examines only the buffers of the copying context ("+short(a[0])+"): a buffer allocated through another context of the same process (InitWithExistingPID) and written by a kernel is copied without a flush")
+				}
+			}
+		}
+		if !found {
+			c.ReportAt(rule, fn, fn.Pos(), "needFlushing:no-overlap-test", "needFlushing no longer tests range overlap")
+		}
+		for _, r := range g.NodesWhere(func(n *core.Node) bool { _, ok := n.Instr.(*ssa.Return); return ok }) {
+			ret := r.Instr.(*ssa.Return)
+			if b, isC := core.ConstBool(ret.Results[0]); isC && !b {
+				// returning false must not be possible while an overlapping dirty buffer exists: the false return is after the loop only
+				continue
+			}
+		}
+		// an overlapping dirty buffer forces true: from the edge (overlap true & dirty true) only `return true` is reachable
+		st1.Instances++
+		okTrue := true
+		for _, n := range g.Nodes {
+			ifi, ok := n.Instr.(*ssa.If)
+			if !ok {
+				continue
+			}
+			// the dirty test itself, or a test of the result of a helper that
+			// contains it (needFlushing -> per-context helper)
+			isDirtyTest := false
+			if f := core.LoadedField(ifi.Cond); f != nil && f.Name() == "l2Dirty" {
+				isDirtyTest = true
+			}
+			if call, ok := ifi.Cond.(*ssa.Call); ok {
+				if cal := call.Call.StaticCallee(); cal != nil && cal.Pkg == fn.Pkg {
+					for _, b2 := range cal.Blocks {
+						for _, i2 := range b2.Instrs {
+							if fa, ok := i2.(*ssa.FieldAddr); ok && core.FieldOfAddr(fa) != nil && core.FieldOfAddr(fa).Name() == "l2Dirty" {
+								isDirtyTest = true
+							}
+						}
+					}
+				}
+			}
+			if isDirtyTest {
+				g.Walk([]core.State{{N: n.Succs[0]}}, core.WalkOpts{ForwardOnly: true}, func(s core.State) {
+					if r, ok := s.N.Instr.(*ssa.Return); ok && s.N.Frame == n.Frame {
+						if b, isC := returnedConstBool(r); !isC || !b {
+							okTrue = false
+						}
+					}
+				})
+			}
+		}
+		st1.Ob(okTrue)
+		if !okTrue {
+			c.ReportAt(rule, fn, fn.Pos(), "needFlushing:dirty-not-true", "an overlapping dirty buffer does not force needFlushing to return true")
+		}
 	}
 }
